@@ -364,6 +364,7 @@ fn blanks(input: Span) -> IResult<Span, ()> {
     V("seed-C03-m2-trim-and-instead-of-or", [("@patch", "seeded/C03-m2/patch.diff")], {"C03": "SKIPS:dfa::keep_only_states_with_input_transitions"}),
     V("seed-C03-m3-double-minimisation", [("@patch", "seeded/C03-m3/patch.diff")], {"C03": "MINONCE:dfa::DFAInternPool::intern"}),
     V("revert-6a3f768-commands-keep-level-0", [("@revert", "6a3f768")], {"C02": "LEVEL:check::do_propagate_fallback_levels:Command"}),
+    V("seed-C13-r2-m2-trace-push-before-early-return", [("@patch", "seeded/C13-r2-m2/patch.diff")], {"C13": "PAIRING:check::do_check_subword_spaces:nonterm_expn_trace"}),
     # ---------------- C10
     V("c10-std-hashset-in-dfa", [("src/dfa.rs", "use hashbrown::{HashMap, HashSet};", "use hashbrown::HashMap;\nuse std::collections::HashSet;")], {"C10": "HASHORD:dfa::dfa_from_regex"}),
     V("c10-env-var", [("src/lib.rs", '    let version = env!("COMPLGEN_VERSION");', '    let version = std::env::var("COMPLGEN_VERSION").unwrap_or_default();')], {"C10": "AMBIENT:signature"}),
